@@ -30,7 +30,7 @@ TRUSTED_EXTRA = ["C18 partial: the 'computed inside the same JIT computation' cl
 
 def cases(seed, tier):
     n = 192 if tier == "quick" else 3600
-    return [{"seed": seed * 1_000_003 + 18001 + i, "what": ["argmax", "argmax", "segment", "discrete", "fused", "policy"][i % 6]} for i in range(n)]
+    return [{"seed": seed * 1_000_003 + 18001 + i, "what": ["argmax", "argmax", "segment", "discrete", "fused", "policy", "argmax", "segment", "discrete", "fused", "policy", "solve"][i % 12]} for i in range(n)]
 
 
 def ext(x):
@@ -103,6 +103,27 @@ def run_case(case):
             vs.append({"clause": "flattened position of the first unmasked element equal to the masked maximum (0 and the initial value if everything is masked), together with that maximum",
                        "detail": f"array {a.tolist()} axes {axes} mask {None if mask is None else mask.tolist()} jit={jit}: implementation idx {ixl} max {mxl} shape {list(ix.shape)}; model idx {o['idx']} max {o['max']} shape {o['shape']}", "key": "C18:argmax"})
         out["sample"] = {"shape": shape, "axes": axes, "mask": mk, "jit": jit, "idx": ixl[:6], "max": mxl[:6]}
+        return out
+    if what == "solve":
+        # the reductions as the library composes them over the periods (entry_point.py builds one discrete-problem solver per
+        # period, each with the choice segments of *its* period): specifications with period-dependent filters, whole solution
+        from pipeline import compare_value_arrays, impl_solve, materialise_case, model_solve
+
+        c2 = {"kind": "gen", "seed": case["seed"], "force": r.choice([["f1two"], ["f1", "mixed"], ["f1two", "mixed"]]), "n_params": 1, "budget": 1500}
+        mj, meta, Ps, _ = materialise_case(c2)
+        out["sig"] = f"solve T={mj['n_periods']} family={meta.get('filter_family')} jit={jit}"
+        try:
+            Vi, _ = impl_solve(mj, Ps[0], jit=jit)
+        except Exception as e:  # noqa: BLE001
+            vs.append({"clause": "solve evaluates", "detail": f"{impl_site(e)}: {str(e)[:200]}", "key": "C18:eval"})
+            return out
+        diffs, st = compare_value_arrays(Vi, model_solve(mj, Ps[0]), mj["n_periods"], None)
+        out["evals"] = st["entries"]
+        out["hist"]["solve_with_period_dependent_filter"] = 1
+        for d in diffs[:1]:
+            vs.append({"clause": "max over the choice axes then segment max = max over all discrete choice combinations of the state (every period of a solution)",
+                       "detail": d["detail"], "key": "C18:solve", "case_model": {"seed": c2["seed"], "force": c2["force"]}})
+        out["sample"] = {"periods": mj["n_periods"], "entries": st["entries"]}
         return out
     if what == "policy":
         # the arg-max as the library itself calls it: `create_compute_conditional_continuation_policy` (entry_point.py) on a
